@@ -6,7 +6,7 @@ import struct
 from lib.coqterm import cbytes, cbool, cN, cnat, clist, hx, unhx
 
 ID = "C25"
-QUICK_N = 3600
+QUICK_N = 3000
 THOROUGH_N = 90000
 SHARD = 150
 COQ_PRELUDE = "From MV Require Import Model.DnsNames Model.DnsMessage.\n"
@@ -217,7 +217,17 @@ def name_buf(rng):
     toks = [b"\x00", b"\x01a", b"\x03www", b"\x07example", b"\x03com", b"\xc0\x00", b"\xc0\x02", b"\xc0\x05", b"\xc0", b"\x40",
             b"\x3f" + b"q" * 63, b"\x05ab", b"\x03a.b", b"\x02\xc3\xa9", b"\xc0\x0c", b"\xff\xff", b"\x01.", b"\x04a..b",
             b"\x04xn--", b"\x0dxn--bcher-kva", b"\x08xn--a-b-"]
-    return b"".join(rng.choice(toks) for _ in range(rng.randint(0, 6)))
+    if rng.chance(0.5):
+        # mostly valid: a few complete names, later ones may end in a pointer to the start of an earlier one
+        out, starts = bytearray(), []
+        for _ in range(rng.randint(1, 3)):
+            here = len(out)
+            for lab in rand_labels(rng, LABELS + ([b"a.b"] if rng.chance(0.1) else [])):
+                out += bytes([len(lab)]) + lab
+            out += struct.pack("!H", 0xC000 | rng.choice(starts)) if starts and rng.chance(0.6) else b"\x00"
+            starts.append(here if rng.chance(0.8) else here + 1)
+        return bytes(out), starts
+    return b"".join(rng.choice(toks) for _ in range(rng.randint(0, 6))), [0]
 
 
 def gen(rng, n, tier):
@@ -251,15 +261,15 @@ def gen(rng, n, tier):
         elif r < 0.72:
             out.append({"k": "npack", "name": gen_name(rng, rng.chance(0.5))})
         elif r < 0.78:
-            out.append({"k": "nunpack", "buf": hx(name_buf(rng))})
+            out.append({"k": "nunpack", "buf": hx(name_buf(rng)[0])})
         elif r < 0.84:
-            b = name_buf(rng)
-            out.append({"k": "nunpackfrom", "buf": hx(b), "off": rng.below(len(b) + 2)})
+            b, offs = name_buf(rng)
+            out.append({"k": "nunpackfrom", "buf": hx(b), "off": rng.choice(offs) if rng.chance(0.7) else rng.below(len(b) + 2)})
         elif r < 0.90:
-            b = name_buf(rng)
-            out.append({"k": "nunpackc", "buf": hx(b), "off": rng.below(len(b) + 2)})
+            b, offs = name_buf(rng)
+            out.append({"k": "nunpackc", "buf": hx(b), "off": rng.choice(offs) if rng.chance(0.7) else rng.below(len(b) + 2)})
         elif r < 0.95:
-            b = name_buf(rng) + name_buf(rng)
+            b = name_buf(rng)[0] + name_buf(rng)[0]
             off = rng.below(len(b) + 1)
             out.append({"k": "decomp", "buf": hx(b), "off": off, "end": rng.randint(off, len(b))})
         else:
@@ -403,7 +413,9 @@ def blank_compressible(j):
     return j
 
 
-def decode_failure_key(err):
+def decode_failure_key(err, buflen=0):
+    if err == "ERecursion" and buflen < 1800:
+        return "recursionerror-on-short-buffer"      # a loop or a bug, not the CPython stack limit on a long chain
     return {"EUnicode": "unicodeerror-escapes-decode", "EValue": "valueerror-escapes-decode",
             "ERecursion": "recursionerror-long-pointer-chain"}.get(err, "decode-raises-other")
 
@@ -430,7 +442,7 @@ def oracle(case, obs):
         r = obs["r"]
         if "err" in r:
             if r["err"] != "EStruct":
-                return [{"key": decode_failure_key(r["err"]), "what": f"DNSMessage.unpack({case['buf']}) raised {r['err']}"}]
+                return [{"key": decode_failure_key(r["err"], len(case["buf"]) // 2), "what": f"DNSMessage.unpack({case['buf'][:400]}) raised {r['err']}"}]
             return []
         rp = obs["repacked"]
         if "ok" not in rp:
@@ -447,7 +459,7 @@ def oracle(case, obs):
     if k in ("nunpack", "nunpackfrom", "nunpackc", "decomp"):
         r = obs["r"]
         if "err" in r and r["err"] != "EStruct":
-            return [{"key": decode_failure_key(r["err"]), "what": f"{k}({case['buf']}) raised {r['err']}"}]
+            return [{"key": decode_failure_key(r["err"], len(case["buf"]) // 2), "what": f"{k}({case['buf']}) raised {r['err']}"}]
     if k == "npack" and wf_name(case["name"]):
         r = obs["r"]
         if "ok" not in r:
